@@ -71,17 +71,36 @@ def _cfg_text(consts: dict, invariants: list[str]) -> str:
     return "\n".join(lines) + "\n"
 
 
-def _run_profile(module: str, name: str, consts: dict, invariants, actions, seed: int, out: dict, workers=8):
+def _budget(tier):
+    budget = {"quick": (260, 300), "thorough": (20000, 20000)}[tier]
+    scale = float(os.environ.get("VERIF_BUDGET_SCALE", "1"))  # < 1 only for fast mutant screening
+    return (max(50, int(budget[0] * scale)), max(50, int(budget[1] * scale)))
+
+
+def _run_profile(module: str, name: str, consts: dict, invariants, actions, seed: int, out: dict, workers=8, quota=None, sem=None):
+    """Run one TLC profile.  The cases are reduced to `quota` (stratified, seeded) right here and TLC's output is
+    dropped, so that the thorough tier never holds the ~10^6 emitted cases of all profiles in memory at once."""
     consts = dict(consts)
     consts["Slice"] = seed % consts["NSlices"]
-    d = core.scratch("c04-" + module.lower())
-    cfg = d / f"{module}_{name}.cfg"
-    cfg.write_text(_cfg_text(consts, invariants))
-    try:
-        res = core.run_tlc(SPEC / f"{module}.tla", cfg, workers=workers, timeout=3000, heap="2g")
-    finally:
-        shutil.rmtree(d, ignore_errors=True)
-    out[(module, name)] = (res, consts)
+    with sem if sem is not None else threading.Semaphore(1):
+        d = core.scratch("c04-" + module.lower())
+        cfg = d / f"{module}_{name}.cfg"
+        cfg.write_text(_cfg_text(consts, invariants))
+        try:
+            res = core.run_tlc(SPEC / f"{module}.tla", cfg, workers=workers, timeout=3000, heap="2g")
+        finally:
+            shutil.rmtree(d, ignore_errors=True)
+        cs = [c for tag, c in res.prints if tag == "CASE"]
+        res.prints = []
+        res.out = ""
+        emitted = len(cs)
+        for c in cs:
+            c["profile"] = name
+        if quota is not None and len(cs) > quota:
+            from . import c04_omega
+
+            cs, _ = _stratified(cs, _theta_stratum if module == "Theta" else c04_omega.stratum, quota, random.Random(seed * 7919 + len(name)))
+        out[(module, name)] = (res, consts, cs, emitted)
 
 
 def _tlc_all(tier: str, seed: int, v: core.Verdict):
@@ -95,29 +114,34 @@ def _tlc_all(tier: str, seed: int, v: core.Verdict):
         acts = OMEGA_ACTIONS + (OMEGA_STRUCT_ACTIONS if OMEGA_PROFILES[n]["Structural"] == "TRUE" else [])
         plan.append(("Omega", n, OMEGA_PROFILES[n], OMEGA_INVARIANTS, acts))
     out: dict = {}
-    ths = [threading.Thread(target=_run_profile, args=(m, n, c, inv, acts, seed, out, 3 if tier == "quick" else 4)) for m, n, c, inv, acts in plan]
+    bud = _budget(tier)
+    # thorough: at most three TLC outputs in memory at a time, each reduced to (at most) the section's whole budget
+    sem = threading.Semaphore(5 if tier == "quick" else 3)
+    quota = {"Theta": None if tier == "quick" else bud[0], "Omega": None if tier == "quick" else bud[1]}
+    ths = [threading.Thread(target=_run_profile, args=(m, n, c, inv, acts, seed, out, 3 if tier == "quick" else 5, quota[m], sem))
+           for m, n, c, inv, acts in plan]
     for t in ths:
         t.start()
-        time.sleep(0.05)  # core.scratch names the TLC metadir by pid + millisecond: keep the starts apart
     for t in ths:
         t.join()
     cases = {"Theta": [], "Omega": []}
     stats = {}
+    emitted = 0
     for (m, n, c, inv, acts) in plan:
-        res, consts = out[(m, n)]
+        if (m, n) not in out:
+            raise core.MachineryError(f"{m}.tla profile {n}: TLC run failed to return")
+        res, consts, cs, nem = out[(m, n)]
         core.require_ok(res, f"{m}.tla profile {n}")
         if res.violated:
             raise core.MachineryError(f"{m}.tla profile {n}: design-level invariant {res.violated} violated:\n" + "\n".join(res.trace[-2:])[:3000])
         core.require_actions(res, acts, f"{m}.tla profile {n}")
         core.tlc_stats_into(v, res)
-        cs = [c for tag, c in res.prints if tag == "CASE"]
         if not cs:
             raise core.MachineryError(f"{m}.tla profile {n} emitted no cases")
-        for c in cs:
-            c["profile"] = n
         cases[m].extend(cs)
-        stats[f"{m}.{n}"] = {"states": res.distinct, "cases": len(cs), "wall_s": round(res.wall, 1), "slice": f"{consts['Slice']}/{consts['NSlices']}"}
-    v.add_coverage(tlc_profiles=stats)
+        emitted += nem
+        stats[f"{m}.{n}"] = {"states": res.distinct, "cases": nem, "wall_s": round(res.wall, 1), "slice": f"{consts['Slice']}/{consts['NSlices']}"}
+    v.add_coverage(tlc_profiles=stats, cases_emitted_by_tlc=emitted)
     return cases
 
 
@@ -568,9 +592,7 @@ def _run(tier, seed, v, cases):
     from . import c04_omega
 
     rng = random.Random(seed)
-    budget = {"quick": (260, 300), "thorough": (20000, 20000)}[tier]
-    scale = float(os.environ.get("VERIF_BUDGET_SCALE", "1"))  # < 1 only for fast mutant screening
-    budget = (max(50, int(budget[0] * scale)), max(50, int(budget[1] * scale)))
+    budget = _budget(tier)
     th, n_th_strata = _stratified(cases["Theta"], _theta_stratum, budget[0], rng)
     om, n_om_strata = _stratified(cases["Omega"], c04_omega.stratum, budget[1], rng)
     work = [("Theta", c) for c in th] + [("Omega", c) for c in om]
@@ -593,7 +615,6 @@ def _run(tier, seed, v, cases):
         if len(samples) < 6 and res and res[0][0] == "ok":
             samples.append({"sec": sec, "layout": res[0][1]["layout"], "edits": res[0][1]["edits"]})
     v.add_coverage(
-        cases_emitted_by_tlc=len(cases["Theta"]) + len(cases["Omega"]),
         cases_replayed=len(work),
         evaluations=steps_checked,
         distinct_nontrivial=n_th_strata + n_om_strata,
@@ -602,7 +623,7 @@ def _run(tier, seed, v, cases):
         rule="a case = one TLC terminal state (layout built item by item + edit sequence); strata = (item shapes, record split, edit kinds); "
              "round-robin over strata, order by VERIF_SEED; a layout the reader rejects is 'not_accepted' and not judged",
         samples=samples,
-        exhaustive=len(work) >= len(cases["Theta"]) + len(cases["Omega"]),
+        exhaustive=len(work) >= v.coverage.get("cases_emitted_by_tlc", 1 << 60),
     )
 
 
